@@ -12,6 +12,8 @@ var (
 	ErrDBWrongPubKeyHash = errors.New("db pubKey hash is not matched with pubKey")
 	ErrDBWrongMapType    = errors.New("db mapType is not valid")
 
+	ErrDBHeaderNotMatched = errors.New("db header does not match the requested pubKey and bitLength")
+
 	ErrAlreadyPlotting = errors.New("db already been plotting")
 	ErrStopPlotting    = errors.New("db stop plotting")
 	ErrMemoryNotEnough = errors.New("memory is not enough")
